@@ -65,7 +65,7 @@ def run(rep):
                 rep.check(guarded, "C11-R1", b.def_, "unwrap-of-client-keyed-lookup:%s[%s]" % (mp, key),
                           "a lookup keyed directly by client-controlled data (%s) is unwrapped without a dominating Some test of the same lookup: a stale or forged value panics the broker" % key, line=c.line,
                           detail={"lookup": ds, "guards": b.guard_strings(c.bb)})
-    rep.floor("C11-R1", "unwrapped registry lookups", n_sites, 35)
+    rep.floor("C11-R1", "unwrapped registry lookups", n_sites, 20)
     # serialized ServiceInfo expect: value is broker-built
     # Index sugar (map[key]) would panic too: none may be keyed by client data
     for name, b in sorted(M.items()):
@@ -159,7 +159,7 @@ def run(rep):
             explicit = name == "handle_event" and any(re.match(r"^(ConnectionShutdown|ShutdownConnection)=discr\(ev\)$", x) for x in g)
             rep.check(own_send or handler_err or explicit, "C11-R5", b.def_, "remove-conn-cause:%s" % "|".join(who)[:80],
                       "connection %s is queued for removal, but not because a send to that very connection failed, nor for an error of its own message" % who, line=c.line, detail={"guards": g, "who": who})
-    rep.floor("C11-R5", "push_remove_conn sites", n, 23)
+    rep.floor("C11-R5", "push_remove_conn sites", n, 12)
     # emit_bus_event collects failing connections in a set first
     eb = M["emit_bus_event"]
     ins = [c for c in eb.calls if c.name == "insert" and broker.has_guard(eb, c.bb, r"^True=Result::is_err\(ConnectionState::send\(")]
